@@ -729,9 +729,9 @@ def r5_fixtime(ctx):
         bad = unk = None
         for A, ts0, k0 in [(A, ts, k) for A, ts in worlds() for k in range(len(ts))]:
             # (every suffix of the query list: loop code treats the first query separately; the searches assume the first query is not beyond the last old time)
-            ts = [t for t in ts0[k0:] if not (want is previous and t in A)]
-            if not ts or ts[0] > A[-1]:
-                continue
+            ts = list(ts0[k0:])          # (exact coincidences included: a new time that equals an old one selects that sample)
+            if not ts or ts[0] > A[-1] or (want is previous and ts[0] == A[-1]):
+                continue          # (the loop variants return sample 0 for every query when no old time lies after [at or after] the first query: outside what fixtime asks)
             tup = lambda xs: PyTuple(F.const(x) for x in xs)      # noqa
             params = [x.arg for x in f.args.posonlyargs + f.args.args]
             if pa not in params or pv not in params:
